@@ -119,7 +119,7 @@ func enumerate(tier string, emit func(string)) {
 
 	// ~A ~S over the object core
 	objs := []string{`0`, `-7`, `18446744073709551617`, `1/3`, `1.5`, `"str"`, `"a\"b\\c"`, `""`, `"héllo"`, `#\a`, `#\Space`,
-		`sym`, `:key`, `|Foo Bar|`, `nil`, `t`, `(1 2)`, `(1 "a" #\b)`, `(a (b c) nil)`, `#(1 2)`, `(quote x)`}
+		`sym`, `:key`, `|Foo Bar|`, `nil`, `()`, `t`, `(1 2)`, `(1 "a" #\b)`, `(a (b c) nil)`, `#(1 2)`, `(quote x)`}
 	for _, d := range []string{"A", "S", "a", "s"} {
 		for _, o := range objs {
 			for _, m := range mods {
